@@ -57,6 +57,12 @@ ATTR_TOKENS = ["staticmethod", "classmethod", "deco", "wrapD", "async", "cached"
                "absent", "dec"]
 
 
+DISCRIMINATORS = ["lang-substring", "lang-ignored", "unit_name-ignored", "unit_name-exact", "unit_path-ignored",
+                  "unit_path-relative", "unit_id-ignored", "method_id-ignored", "method_list-ignored", "method_list-substring",
+                  "attrs-ignored", "attrs-exact", "attrs-any", "always-unit_init", "never-unit_init", "file-name-default-lang",
+                  "all-yaml-files-loaded", "suffix-entry.yaml-loaded", "only-top-level-entry.yaml", "first-rule-only"]
+
+
 # ---------------------------------------------------------------------------------------------
 # generator
 
@@ -170,6 +176,8 @@ def case_strategy(with_js=True):
         for f in files:
             if draw(st.integers(0, 9)) < 7:
                 f["init"] = []
+                if f["lang"] == "python" and draw(st.integers(0, 3)) == 1:
+                    f["init_style"] = "main_guard"
                 for _ in range(draw(st.sampled_from([0, 1, 1, 2]))):
                     c = draw(st.integers(0, len(M) - 1))
                     if c in f["init"] or M[c]["kind"] == "inner" or not may_call(f["path"], None, c, imported[f["path"]]):
@@ -371,11 +379,16 @@ def case_strategy(with_js=True):
         if draw(st.integers(0, 11)) == 0:
             settings.append({"path": draw(st.sampled_from(["subE/entry.yaml", "empty-entry.yaml"])),
                              "text": draw(st.sampled_from(["", "# nothing\n"]))})
+        if draw(st.integers(0, 79)) == 41:
+            settings.append({"path": draw(st.sampled_from(["subM/entry.yaml", "subM/notentry.yaml", "go-entry.yaml"])),
+                             "kind": "not-a-rule-list", "text": "lang: python\nmethod_list: [main]\n"})
         langs = "python,javascript" if any(f["lang"] == "javascript" for f in spec["files"]) else "python"
         if langs == "python" and draw(st.integers(0, 7)) == 0:
             langs = "python,javascript"
+        assert len({f["path"] for f in settings}) == len(settings)
         return {"kind": "project", "langs": langs, "files": files, "methods": facts,
-                "units": [{"path": f["path"], "lang": f["lang"], "has_init": f["init"] is not None} for f in spec["files"]],
+                "units": [{"path": f["path"], "lang": f["lang"], "has_init": f["init"] is not None,
+                           "init_style": f.get("init_style", "plain")} for f in spec["files"]],
                 "settings": settings}
 
     return case()
@@ -497,8 +510,38 @@ def run_lian(case, settings, sub_command="run", quiet=False):
         shutil.rmtree(base, ignore_errors=True)
 
 
-def sig_method_kind(m):
-    return m["kind"]
+def run_lian_cli(case, settings):
+    """The same run through a fresh interpreter (driver self-check): -> (entry ids, flows, analysed ids, rc)."""
+    lianrun = _lianrun()
+    import pandas as pd
+    base = tempfile.mkdtemp(prefix="c20cli-", dir=lianrun.scratch_dir())
+    try:
+        src = os.path.join(base, "in")
+        for rel, text in case["files"].items():
+            p = os.path.join(src, rel)
+            os.makedirs(os.path.dirname(p), exist_ok=True)
+            with open(p, "w", encoding="utf-8") as fh:
+                fh.write(text)
+        sd = model.write_settings_dir(os.path.join(base, "settings"), settings)
+        ws = os.path.join(base, "ws")
+        r = lianrun.run_cli(["run", "-l", case["langs"], "-f", "-w", ws, "--nomock", "--default-settings", sd, src], cwd=base)
+        prefix = os.path.join(ws, "lian_workspace", "src", "in")
+        ep = os.path.join(ws, "lian_workspace", "semantic_p1", "entry_points")
+        ids = set()
+        if os.path.exists(ep):
+            for v in pd.read_feather(ep)["entry_points"]:
+                ids |= {int(x) for x in v}
+        flows = []
+        fj = os.path.join(ws, "lian_workspace", "taint", "taint_data_flow.json")
+        if os.path.exists(fj):
+            with open(fj) as fh:
+                for fl in json.load(fh):
+                    flows.append((os.path.relpath(fl["source_file_path"], prefix), int(fl["source_line"]),
+                                  os.path.relpath(fl["sink_file_path"], prefix), int(fl["sink_line"])))
+        analysed = [int(a) for a, _ in ANALYZING.findall(r.stdout)]
+        return ids, flows, analysed, r.returncode
+    finally:
+        shutil.rmtree(base, ignore_errors=True)
 
 
 def check_case(case, col=None):
@@ -533,9 +576,10 @@ def check_case(case, col=None):
     pre_exp = model.loaded_rules(settings)
     exc = obs.get("exc")
     if pre_exp == "quit":
-        info["labels"].append("outcome:unknown-key=>quit")
+        info["labels"].append("outcome:malformed-rule-file=>quit")
         if not isinstance(exc, SystemExit):
-            out.append(((ID, "unknown-rule-key", "no-quit"), "a rule with an unknown key did not stop the run (exc=%r)" % (exc,)))
+            out.append(((ID, "malformed-rule-file", "no-quit"),
+                        "a rule with an unknown key / a rule file that is not a list of rules did not stop the run (exc=%r)" % (exc,)))
         info["E"] = None
         return out, info
     if exc is not None:
@@ -571,6 +615,13 @@ def check_case(case, col=None):
 
     E = model.expected_entries(rcase, units)
     info["E"] = E
+    # which single deviations from the reference matcher this case would expose (evidence of non-vacuity)
+    for v in DISCRIMINATORS:
+        try:
+            if model.expected_entries(rcase, units, v) != E:
+                info["labels"].append("discriminates:" + v)
+        except Exception:
+            pass
     R = model.reachable(rcase, E)
     info["R"] = R
     name_of = lambda mid: "%s:%s" % (by_mid[mid]["file"], by_mid[mid]["name"])
@@ -615,7 +666,7 @@ def check_case(case, col=None):
     analysed = {sid_to_mid.get(x, -x) for x in obs["analysed"]}
     basis_E = E if got == E else got
     basis_R = model.reachable(rcase, basis_E)
-    not_an = [x for x in basis_E if x not in analysed and not _empty_init(by_mid[x])]
+    not_an = [x for x in basis_E if x not in analysed]
     if not_an:
         out.append(((ID, "p3-analysed", "selected-not-analysed", by_mid[not_an[0]]["kind"]),
                     "selected entry never analysed: %s" % fmt(not_an)))
@@ -670,6 +721,8 @@ def check_case(case, col=None):
             out.append(((ID, "empty-entry-set", "no-'No taint flows found.'-line"), "console lacks the no-flow line"))
     info["got"] = got
     info["obs_flows"] = len(obs["flows"])
+    info["inproc"] = (set(got_ids), sorted(obs["flows"]), list(obs["analysed"]))
+    info["settings_resolved"] = settings
     # de-duplicate signatures within a case
     seen = set()
     ded = []
@@ -678,10 +731,6 @@ def check_case(case, col=None):
             seen.add(sig)
             ded.append((sig, what))
     return ded, info
-
-
-def _empty_init(m):
-    return False
 
 
 def labels_of(case, info):
@@ -709,6 +758,8 @@ def labels_of(case, info):
         L.append("settings:empty-or-comment-file")
     if "javascript" in [u["lang"] for u in case["units"]]:
         L.append("project:has-js")
+    if any(u.get("init_style") == "main_guard" for u in case["units"]):
+        L.append("project:init-under-main-guard")
     if any(not u["has_init"] for u in case["units"]):
         L.append("project:file-without-init")
     names = [m["name"] for m in case["methods"] if m["name"] != model.INIT]
@@ -728,8 +779,6 @@ def labels_of(case, info):
             L.append("E:selects-never-called-method")
         if any(m["name"] == model.INIT for m in case["methods"] if m["mid"] in E):
             L.append("E:has-unit_init")
-        # substring-vs-exact classes (looked at by hand first, see report)
-        units = {u["path"]: {"path": u["path"], "abs": "/X/in/" + u["path"], "lang": u["lang"], "unit_id": None} for u in case["units"]}
     return L + info.get("labels", [])
 
 
@@ -748,7 +797,7 @@ def sample_shard(arg):
               suppress_health_check=list(HealthCheck), phases=[hypothesis.Phase.generate])
     @hypothesis.given(case_strategy(with_js))
     def prop(case):
-        record_case(col, case)
+        record_case(col, case, crosscheck=True)
 
     try:
         prop()
@@ -757,7 +806,7 @@ def sample_shard(arg):
     return col
 
 
-def record_case(col, case):
+def record_case(col, case, crosscheck=False):
     try:
         ds, info = check_case(case)
     except BaseException as e:
@@ -780,6 +829,19 @@ def record_case(col, case):
         else:
             col.discrepancy(sig, what, case)
     col.extra["flows_reported"] += info.get("obs_flows", 0)
+    # driver self-check: the first case of a shard that selects something is repeated through the CLI in a fresh process
+    if crosscheck and E and "inproc" in info and not col.extra["cli_crosschecks"]:
+        col.extra["cli_crosschecks"] += 1
+        try:
+            ids, flows, analysed, rc = run_lian_cli(case, info["settings_resolved"])
+            a = info["inproc"]
+            if rc != 0 or ids != a[0] or sorted(flows) != a[1] or analysed != a[2]:
+                col.error("in-process run and CLI run differ (rc=%s): entry ids %s vs %s, flows %s vs %s, analysed %s vs %s; case=%s" % (
+                    rc, sorted(a[0]), sorted(ids), a[1], sorted(flows), a[2], analysed, json.dumps(case)[:3000]))
+        except BaseException as e:
+            if isinstance(e, KeyboardInterrupt):
+                raise
+            col.error("CLI cross-check crashed: %s" % traceback.format_exc()[-800:])
 
 
 def replay(path):
